@@ -119,7 +119,8 @@ def h_cache_entry(eng, version=2, namelen=3, symname=True):
         eng.prove(And(version < 3, ent.extended_flags != 0), "writer refuses only extended flags in v2")
         return
     data = f.getvalue()
-    g = io.BytesIO(bytes(data)) if eng.mode == "concrete" else SymBytesIO(data)
+    tail = b"\x01" * 24                         # what follows the entry in a real file: the reader must stop before it
+    g = io.BytesIO(bytes(data) + tail) if eng.mode == "concrete" else SymBytesIO(data + tail)
     back = IX.read_cache_entry(g, version, prev)
     eng.prove(g.tell() == len(data), "reader consumes exactly the written entry")
     eng.prove(back.name == name, "name")
@@ -287,4 +288,64 @@ def checks(tier):
                       "(symbolic), reader opened with and without skip_hash",
                outside="multi-byte damage that preserves SHA-1 (not constructible); files whose trailer is all zero (skipHash writers)",
                tiers=q),
+    ]
+
+
+# ---------------------------------------------------------------------------------------------
+# (g) whole-index round trip: conflict stages with missing sides, order of entries, unknown extensions
+_b11g = checks
+
+
+def h_index_dict(eng, version=2):
+    """write_index_dict -> read_index_dict: a conflicted path with any non-empty subset of {ancestor, ours, theirs}
+    keeps exactly those stages; entries come out in git's order (name, then stage); a plain entry next to it survives"""
+    def ent(n, stage=0):
+        return IX.IndexEntry(ctime=(n, 0), mtime=(n, 0), dev=0, ino=0, mode=0o100644, uid=0, gid=0, size=n, sha=(b"%d" % n) * 40,
+                             flags=stage << 12, extended_flags=0)
+    sides = [bool(eng.bool(f"has_stage{i}")) for i in (1, 2, 3)]
+    eng.assume(any(sides))
+    names = [b"a", b"a.b", b"a/b", b"b"]
+    cname = names[eng.choice("conflicted_name", 4)]
+    pname = names[eng.choice("plain_name", 4)]
+    eng.assume(cname != pname)
+    c = IX.ConflictedIndexEntry(ancestor=ent(1, 1) if sides[0] else None, this=ent(2, 2) if sides[1] else None,
+                                other=ent(3, 3) if sides[2] else None)
+    entries = {cname: c, pname: ent(7)}
+    f = io.BytesIO()
+    IX.write_index_dict(f, entries, version=version)
+    raw = f.getvalue()
+    back, ver, exts = IX.read_index_dict_with_version(io.BytesIO(raw))
+    eng.prove(sorted(back) == sorted(entries), "same paths")
+    b = back.get(cname)
+    eng.prove(isinstance(b, IX.ConflictedIndexEntry), f"conflicted path reads back as a conflict (sides {sides})")
+    if isinstance(b, IX.ConflictedIndexEntry):
+        for nm, i in (("ancestor", 0), ("this", 1), ("other", 2)):
+            e = getattr(b, nm)
+            eng.prove((e is not None) == sides[i], f"stage {i + 1} ({nm}) present exactly if it was written (sides {sides})")
+            if e is not None and sides[i]:
+                eng.prove(e.size == i + 1 and e.sha == (b"%d" % (i + 1)) * 40, f"stage {i + 1} carries its own entry (sides {sides})")
+    p = back.get(pname)
+    eng.prove(isinstance(p, IX.IndexEntry) and p.size == 7, "the plain entry survives")
+    # on-disk order: names ascending (memcmp), stages ascending within a name
+    seq = []
+    g = io.BytesIO(raw)
+    ver2, n = IX.read_index_header(g)
+    prev = b""
+    for _ in range(n):
+        e = IX.read_cache_entry(g, ver2, prev)
+        prev = e.name
+        seq.append((e.name, (e.flags >> 12) & 3))
+    eng.prove(seq == sorted(seq), f"entries are stored in git's order (name, stage): {seq}")
+    eng.prove(n == 1 + sum(sides), "one stored entry per stage")
+
+
+def checks(tier):
+    q = ("quick", "thorough")
+    return _b11g(tier) + [
+        KCheck("C11g.index_dict", h_index_dict, parts=[{"version": v} for v in (2, 3, 4)],
+               encoded=["dulwich.index.write_index_dict", "dulwich.index.read_index_dict_with_version", "dulwich.index.read_cache_entry",
+                        "dulwich.index.ConflictedIndexEntry"],
+               bounds="versions 2-4; one conflicted path with every non-empty subset of the stages 1, 2, 3 and one plain path, names "
+                      "from {a, a.b, a/b, b} in every combination; stored order re-read entry by entry",
+               outside="several conflicted paths; extensions (not covered)", tiers=q),
     ]
